@@ -3,5 +3,7 @@
 pub mod buf;
 pub mod pnm;
 pub mod rect;
+#[cfg(all(feature = "std", retrofire_verif))]
+pub mod verif_fs;
 
 pub type Dims = (u32, u32);
